@@ -6,7 +6,8 @@ CFG = {'level': 'exploration',
               'bijection, completion-order formula), codec round-trip monitors',
  'level_text': 'Logs of 257 and 700 (quick) / 16385 and 30000 (thorough) PRNG records per batch are appended one record at a time; every stored hash, '
                'every index<->coordinate mapping, every StoredHashCount and every TreeHash(m) is compared with an independent model; 2e5/6e7 sparse '
-               'coordinates up to 2^61 and 1e5/3e7 tree/record/hash codec round trips.',
+               'coordinates up to 2^61 and 1e5/3e7 tree/record/hash codec round trips.'
+               ' Added after seeded changes: a leaf-hash sweep over every record length 0..1100 and around larger powers of two, code points at every UTF-8 boundary incl. U+FFFD in record texts, a zero-copy HashReader pass with a shadow copy of the store (the library may only read what ReadHashes returns), and eight logs built concurrently.',
  'level_note': 'Trusts crypto/sha256 and ref/refmerkle (recursive MTH; completion-order index formula StoredCount(rec)+level derived from the '
                'documented append protocol).',
  'gomaxprocs': 4,
